@@ -60,6 +60,14 @@ func init() {
 			Req: []string{"def($client, _.GetClientByClientID(_, $r.Data.ClientID), 0)", "ok(_.GetClientByClientID(_, $r.Data.ClientID))",
 				"eq($client.AuthMethod(), oidc.AuthMethodNone) || (secretOK($r.Data.ClientID, $r.Data.ClientSecret) && neq($client.AuthMethod(), oidc.AuthMethodPrivateKeyJWT) && (neq($client.AuthMethod(), oidc.AuthMethodPost) || true($s.provider.AuthMethodPostSupported())))"}},
 		{ID: "E1.legacy.verifyclient.only", Fn: "op.(*LegacyServer).VerifyClient", Kind: "ret ok", Max: 4},
+		{ID: "E1.server.parse.basic-takes-precedence", Fn: "op.(*webServer).parseClientCredentials", P: []string{"s", "r"}, Kind: "ret ok", Pat: "ret($cc, nil)", Max: 1,
+			Why: "credentials in an Authorization header are the ones that get verified; a wrong Basic secret is not bypassed by form fields",
+			Req: []string{"def($ok, $r.BasicAuth(), 2)",
+				"false($ok) || (def($id, $r.BasicAuth(), 0) && def($sec, $r.BasicAuth(), 1) && eq($cc.ClientID, res(0, url.QueryUnescape($id))) && eq($cc.ClientSecret, res(0, url.QueryUnescape($sec))) && ok(url.QueryUnescape($id)) && ok(url.QueryUnescape($sec)))"}},
+		{ID: "E1.server.parse.credentials-present", Fn: "op.(*webServer).parseClientCredentials", P: []string{"s", "r"}, Kind: "ret ok", Pat: "ret($cc, nil)", Max: 1,
+			Why: "Server.VerifyClient implementations receive a client_id or an assertion, and an assertion only of the JWT-bearer type",
+			Req: []string{`neq($cc.ClientID, "") || neq($cc.ClientAssertion, "")`, `eq($cc.ClientAssertion, "") || eq($cc.ClientAssertionType, oidc.ClientAssertionTypeJWTAssertion)`}},
+		{ID: "E1.server.parse.only", Fn: "op.(*webServer).parseClientCredentials", Kind: "ret ok", Max: 1},
 		// dispatch: the handler behind withClient belongs to the posted grant_type
 		{ID: "E7.dispatch.server.code", Fn: "op.(*webServer).tokensHandler", P: []string{"s", "w", "r"}, Kind: "call", Pat: "$s.withClient($s.codeExchangeHandler)", Max: 1, Req: []string{"eq(" + gt + ", oidc.GrantTypeCode)"}},
 		{ID: "E7.dispatch.server.refresh", Fn: "op.(*webServer).tokensHandler", P: []string{"s", "w", "r"}, Kind: "call", Pat: "$s.withClient($s.refreshTokenHandler)", Max: 1, Req: []string{"eq(" + gt + ", oidc.GrantTypeRefreshToken)"}},
@@ -99,6 +107,14 @@ func init() {
 		{ID: "E1.device-auth.legacy-server", Fn: "op.(*LegacyServer).DeviceAuthorization", P: []string{"s", "ctx", "r"}, Kind: "call", Pat: "op.createDeviceAuthorization(_, $r.Data, $r.Client.GetID(), _)", Max: 1,
 			Req: []string{"true(op.ValidateGrantType($r.Client, oidc.GrantTypeDeviceCode))"}},
 
+		// --- ClientIDFromRequest: the unauthenticated form client_id is handed out only when no credentials were presented at all
+		{ID: "E1.clientid.unauthenticated-only-without-credentials", Fn: "op.ClientIDFromRequest", P: []string{"r", "p"}, Kind: "ret ok", Pat: "ret($data.ClientID, false, nil)", Max: 1,
+			Why: "presented but wrong Basic credentials are refused, never downgraded to an unauthenticated public-client request",
+			Req: []string{"errIs(op.ClientBasicAuth($r, _), op.ErrNoClientCredentials)"}},
+
+		{ID: "E1.basicauth.no-credentials-sentinel-only-without-header", Fn: "op.ClientBasicAuth", P: []string{"r", "storage"}, Kind: "ret fail", Pat: "ret(_, _.WithParent(op.ErrNoClientCredentials))", Max: 1,
+			Why: "the sentinel that lets callers fall back to the unauthenticated form client_id means 'no Authorization header', never 'wrong or malformed credentials'",
+			Req: []string{"def($ok, _.BasicAuth(), 2)", "false($ok)"}},
 		// --- introspection
 		{ID: "E1.introspect.provider", Fn: "op.Introspect", Kind: "store", Pat: "store($resp.Active, true)", Max: 1,
 			Why: "active:true only for an authenticated caller, a token the provider can resolve, and a successful storage lookup for that caller",
